@@ -9,7 +9,7 @@ import json
 from ..common import *
 from ..ergprog import INT, erg_str
 
-STRS = {"uni\\u00e9": "unié"}
+STRS = {"uni\\u00e9": "unié", "U+1F600": "\U0001F600x"}
 
 
 def build(toks, pos=0):
@@ -37,7 +37,8 @@ def build(toks, pos=0):
         return f"[{a}, {b}]", [va, vb], q
     if k == "dict":
         a, va, q = build(toks, pos + 1)
-        return f'{{"k": {a}}}', {"k": va}, q
+        key = STRS.get(p, p)
+        return f'{{{erg_str(key)}: {a}}}', {key: va}, q
     raise ValueError(k)
 
 
